@@ -107,7 +107,7 @@ def boolText (f : Fl) (b : Bool) : Bytes := withColor f serColorMagenta (if b th
 
 /-- decimal digits of a natural number, most significant first ("%u"-style, "0" for 0) -/
 def decDigits (n : Nat) : Bytes :=
-  if h : n < 10 then [UInt8.ofNat (48 + n)]
+  if _h : n < 10 then [UInt8.ofNat (48 + n)]
   else decDigits (n / 10) ++ [UInt8.ofNat (48 + n % 10)]
 termination_by n
 decreasing_by omega
